@@ -3,7 +3,7 @@
 //! usage: loadfuzz <cases.jsonl>     (same protocol as inkdrive: one JSON result line per case,
 //!                                    so vlib.run_inkdrive can isolate crashing cases)
 //!
-//! case {"id":..,"mode":"story","text":<document text>,"want_doc":bool}
+//! case {"id":..,"mode":"story","text":<document text>,"want_doc":bool,"want_audit":bool}
 //!   -> {"id","parse":"ok"|"err","load":"ok"|"err(<class>)"|"panic","site":"<file>:<line>"|null,
 //!       "msg":<panic message>|null,"doc":<Gallina term of type Types.json>|null,"depth":n}
 //!   `parse`/`doc` are serde_json's own view of the text (the document the std loader sees).
@@ -160,10 +160,22 @@ fn run_case(case: &J) -> J {
                 Err(_) => ("err", J::Null, 0),
             };
             let (st, load, site, msg) = new_story(text);
+            let mut audit = J::Null;
+            if case.get("want_audit").and_then(|x| x.as_bool()).unwrap_or(false)
+                && let Some(s) = st.as_ref()
+            {
+                let _ = take_loc();
+                audit = match catch_unwind(AssertUnwindSafe(|| s.verif_content_audit())) {
+                    Ok(v) => json!(v),
+                    Err(_) => json!("panic"),
+                };
+                let _ = take_loc();
+            }
             // dropping a story must not crash either
             drop(st);
             drop(parsed);
-            json!({"id": id, "parse": parse, "load": load, "site": site, "msg": msg, "doc": doc, "depth": d})
+            json!({"id": id, "parse": parse, "load": load, "site": site, "msg": msg, "doc": doc, "depth": d,
+                   "audit": audit})
         }
         "save" => {
             let story = case.get("story").and_then(|x| x.as_str()).unwrap_or("");
@@ -186,6 +198,14 @@ fn run_case(case: &J) -> J {
                     ("panic".to_owned(), s, m)
                 }
             };
+            // a save that was accepted: does the story still play? (statistic only)
+            let mut played = J::Null;
+            if load == "ok" {
+                let _ = take_loc();
+                let t = transcript(&mut st);
+                let (psite, _) = take_loc();
+                played = json!({"panic": t == "panic", "site": psite});
+            }
             bladeink::verif::set_forced_seed(Some(42));
             let _ = take_loc();
             let rr = catch_unwind(AssertUnwindSafe(|| st.reset_state()));
@@ -197,7 +217,7 @@ fn run_case(case: &J) -> J {
             let after = if reset == "ok" { transcript(&mut st) } else { String::new() };
             let (rsite, _) = take_loc();
             json!({"id": id, "new": new, "load": load, "site": site, "msg": msg, "reset": reset,
-                   "after": after, "fresh": fresh, "reset_site": rsite})
+                   "after": after, "fresh": fresh, "reset_site": rsite, "played": played})
         }
         "mksave" => {
             let story = case.get("story").and_then(|x| x.as_str()).unwrap_or("");
